@@ -106,6 +106,16 @@ func (p *FunctionBuilder) CreateFunction(m *bmodel.MethodEntry) (*gmodel.Functio
 		srcVar.Name = m.Opts.Receiver
 	}
 
+	// The generated function must not collide with a declaration of the package: with another
+	// package-level object, or - in receiver style - with a field or method of the receiver type.
+	if m.Opts.Receiver == "" {
+		if p.pkg.Types.Scope().Lookup(m.Method.Name()) != nil {
+			return nil, logger.Errorf("%v: %v is already declared in the package", p.fset.Position(m.Method.Pos()), m.Method.Name())
+		}
+	} else if obj, _, _ := types.LookupFieldOrMethod(src.Type(), true, p.pkg.Types, m.Method.Name()); obj != nil {
+		return nil, logger.Errorf("%v: the receiver type already has a field or method %v", p.fset.Position(m.Method.Pos()), m.Method.Name())
+	}
+
 	// Receiver, parameters and named results share one scope in the generated function.
 	usedNames := []string{srcVar.Name, dstVar.Name}
 	for _, arg := range additionalArgsVars {
